@@ -1374,3 +1374,89 @@ V('c10-twin-seen-frozenset', 'C10', 'R10.6', FATTR,
             return bool(self.section)
         return self.value in (b'BINARY', b'RFC822', b'RFC822.TEXT')''',
   expect='silent')
+
+# ---------------------------------------------------------------- C11
+LISTTREE = 'pymap/listtree.py'
+LAYOUT = 'pymap/backend/maildir/layout.py'
+V('c11-add-keyerror', 'C11', 'R11.1a', MAILDIRMBX,
+  '''        except FileExistsError as exc:
+            raise ValueError(name) from exc
+        except FileNotFoundError as exc:
+            raise MailboxNotFound(name) from exc''',
+  '''        except FileExistsError as exc:
+            raise KeyError(name) from exc
+        except FileNotFoundError as exc:
+            raise MailboxNotFound(name) from exc''')
+V('c11-dict-delete-valueerror', 'C11', 'R11.1a', DICTMBX,
+  '''            if name not in self._set:
+                raise KeyError(name)''', '''            if name not in self._set:
+                raise LookupError(name)''')
+V('c11-session-no-translation', 'C11', 'R11.1a', SESS,
+  '''        try:
+            await self.mailbox_set.delete_mailbox(name)
+        except KeyError as exc:
+            raise MailboxNotFound(name) from exc
+        return''', '''        await self.mailbox_set.delete_mailbox(name)
+        return''')
+V('c11-rename-unhandled', 'C11', 'R11.1b', MAILDIRMBX,
+  '''            try:
+                self._layout.rename_folder(before, after, self.delimiter)
+            except FileNotFoundError as exc:
+                raise KeyError(before) from exc
+            except FileExistsError as exc:
+                raise ValueError(after) from exc''',
+  '''            try:
+                self._layout.rename_folder(before, after, self.delimiter)
+            except FileNotFoundError as exc:
+                raise KeyError(before) from exc''')
+V('c11-get-folder-unhandled', 'C11', 'R11.1b', MAILDIRMBX,
+  '''            try:
+                maildir = self._layout.get_folder(name, self.delimiter)
+            except FileNotFoundError as exc:
+                raise KeyError(name) from exc''',
+  '''            maildir = self._layout.get_folder(name, self.delimiter)''')
+V('c11-rename-source-unchecked', 'C11', 'R11.1c', LAYOUT,
+  '''        if not os.path.isdir(source_path):
+            raise FileNotFoundError(source_path)
+        elif os.path.exists(dest_path):
+            raise FileExistsError(dest_path)''',
+  '''        if os.path.exists(dest_path):
+            raise FileExistsError(dest_path)''')
+V('c11-star-no-dotall', 'C11', 'R11.2', LISTTREE,
+  '''        return (re.compile(pattern, re.DOTALL),
+                re.compile(pattern, re.DOTALL | re.IGNORECASE))''',
+  '''        return (re.compile(pattern),
+                re.compile(pattern, re.IGNORECASE))''')
+V('c11-dollar-anchor', 'C11', 'R11.2', LISTTREE,
+  "pattern = '^' + ''.join(pattern_parts) + r'\\Z'",
+  "pattern = '^' + ''.join(pattern_parts) + '$'")
+V('c11-percent-matches-delimiter', 'C11', 'R11.2', LISTTREE,
+  '''            elif part == '%':
+                pattern_parts.append(self._no_delimiter)''',
+  '''            elif part == '%':
+                pattern_parts.append('.*?')''')
+V('c11-rename-guard-wrong-field', 'C11', 'R11.3', STATE,
+  "if cmd.to_mailbox == 'INBOX':", "if cmd.from_mailbox == 'INBOX':")
+V('c11-delete-no-inbox-guard', 'C11', 'R11.3', STATE,
+  '''        if cmd.mailbox == 'INBOX':
+            return ResponseNo(cmd.tag, b'Cannot delete INBOX.'), None
+''', '')
+V('c11-inbox-not-recreated', 'C11', 'R11.4', DICTMBX,
+  '''                    self._set[after_name] = self._inbox
+                    self._inbox = MailboxData(
+                        self._content_cache, self._thread_cache)''',
+  '''                    self._set[after_name] = self._inbox''')
+# twins
+V('c11-twin-fullmatch', 'C11', 'R11.2', LISTTREE,
+  "pattern = '^' + ''.join(pattern_parts) + r'\\Z'",
+  "pattern = ''.join(pattern_parts)", expect='silent',
+  edits=[(LISTTREE, "pattern = '^' + ''.join(pattern_parts) + r'\\Z'",
+          "pattern = ''.join(pattern_parts)"),
+         (LISTTREE, "if canonical_i.match('INBOX'):",
+          "if canonical_i.fullmatch('INBOX'):"),
+         (LISTTREE, "elif canonical.match(entry.name):",
+          "elif canonical.fullmatch(entry.name):")])
+V('c11-twin-class-star', 'C11', 'R11.2', LISTTREE,
+  '''            if part == '*':
+                pattern_parts.append('.*?')''', '''            if part == '*':
+                pattern_parts.append(r'[\\s\\S]*?')''', expect='silent')
